@@ -47,7 +47,7 @@ FSA = ["A-walkdir", "A-str", "A-adapters"]
 ACTORS = ["A-hash", "A-clone", "A-std", "A-chan", "A-proc", "A-bridge", "R1", "R16"]
 PROPS = {
     "C01": {"units": ["ACT", "RELAY", "CFG"], "level": "proof", "assume": ACTORS},
-    "C04": {"units": ["ACT", "RELAY"], "level": "proof", "assume": ACTORS + ["A-exec"],
+    "C04": {"units": ["ACT", "RELAY", "CLN"], "level": "proof", "assume": ACTORS + ["A-exec"],
             "not_covered": ["not covered: liveness itself (executor fairness, that scripts terminate, any time bound) - only the safety skeleton of termination is proved"]},
     "C02": {"units": ["INC", "UTIL", "FS"], "level": "proof", "assume": INCA + FSA,
             "not_covered": ["not covered: hash collisions (the record holds a hash of the content), the directory walk itself (A-fs), timestamp granularity"]},
@@ -64,7 +64,7 @@ PROPS = {
             "not_covered": ["not covered: YAML -> yaml::Project (A-yaml); str::split behind reference parsing (DOM unit, three assumed facts); termination of the import loader add_project (depends on the file system being finite; A-yaml)"]},
     "C10": {"units": ["BLD", "ACT", "RELAY", "CLN"], "level": "proof", "assume": ACTORS,
             "not_covered": ["not covered: any latency bound; grandchildren of the shell; the hand-off from the signal handler task"]},
-    "C11": {"units": ["ACT", "RELAY"], "level": "proof", "assume": ACTORS},
+    "C11": {"units": ["ACT", "RELAY", "CLN"], "level": "proof", "assume": ACTORS},
     "C12": {"units": ["CLN", "INC", "FS"], "level": "proof", "assume": ["A-hash", "A-std", "A-fs", "A-clap", "R1"] + FSA,
             "not_covered": ["not covered: what remove_dir_all and the directory walk do with symbolic links (A-fs); clap argument parsing"]},
     "C13": {"units": ["CFG", "INC", "WCH", "FS"], "level": "proof", "assume": CFGA + ["A-fs", "A-codec", "A-cmd"] + FSA,
